@@ -43,6 +43,8 @@ func RunContext(ctx context.Context, env *env.Env, options *Options, stmt ast.St
 	}
 	runInfo.runSingleStmt()
 	if len(runInfo.defers) > 0 {
+		// the result is the value at the end of the run, deferred calls do not alter it
+		runInfo.rv = detachValue(runInfo.rv)
 		runInfo.runDefers()
 	}
 	if runInfo.err == ErrReturn {
